@@ -10,6 +10,7 @@ static struct cmd cmds[] = {
   {"c03", cmd_c03},
   {"c03e", cmd_c03e},
   {"c04", cmd_c04},
+  {"c04f", cmd_c04f},
   {"c02", cmd_c02},
   {"c05", cmd_c05},
   {"c12", cmd_c12},
